@@ -97,6 +97,35 @@ simple("C07", "exploration",
        TRUST_L1)
 
 
+simple("C13", "exploration",
+       "real HwMonFan objects: exhaustive curves on up to 3 (quick) / 4 (thorough) of the keys {0,1,63,128,254,255} with RPM in {0, 0.4, 1, 500, 500.9, 2000} cycling through the "
+       "8 combinations of configured min/start/max and neverStop; plus seeded random cases (single point, all-zero, plateaus with sub-RPM jitter, non-monotonic, full-size, sparse) "
+       "with attach sequences of length 1..4 incl. nil and empty data; reference computed from the data; non-trivial = at least one accepted attachment; distinct by case hash",
+       TRUST_L1 + ["keys whose RPM lies in (0,1) may count as zero or non-zero for the start PWM (the statement does not say)",
+                   "for all-zero data and for an unconfigured minimum only range/stability/configured-values-kept are required"],
+       batches=(8, 16))
+
+
+def c14(p, tier, work, t0, replay):
+    _src, vh = build_vh(work)
+    q = tier == "quick"
+    merged = vcheck.run_vh_batches(vh, p, tier, 8 if q else 16, work, 900 if q else 3000)
+    vcheck.run_vh_batches(vh, p, tier, 4 if q else 12, work, 900 if q else 3000, merged=merged, mode="crash")
+    vcheck.run_vh_batches(vh, p, tier, 4 if q else 8, work, 900 if q else 3000, merged=merged, mode="lin")
+    rule = ("three monitors on the real persistence package (real bbolt file): (1) seeded random sequential histories of save/load/delete/reopen/corrupt-inject over 1..5 fan ids x "
+            "both kinds with arbitrary maps, all keys re-loaded and compared with an in-memory model after every step; (2) crash points: a worker process executing a logged "
+            "script is killed by strace-injected SIGKILL at every k-th pwrite64 / fdatasync / ftruncate it performs and at random times, a fresh process dumps the database, the "
+            "in-flight entry must be old or new and every other entry its last acknowledged value; (3) concurrent goroutine and process clients (some killed mid-call, their open "
+            "calls kept open to the end) checked for linearizability with porcupine, partitioned by key; non-trivial: history with saves and deletes / kill that landed inside an "
+            "operation (distinct crash point) / distinct observed interleaving")
+    return vcheck.finish(p, tier, "fault_enumeration", merged, rule,
+                         ["process kill leaves the page cache intact: power loss / torn sectors are not covered", "strace when=k counts per thread; the worker locks its OS thread",
+                          "porcupine v1.3.0, 60 s checker timeout (timeout = inconclusive)"], t0)
+
+
+PROPS["C14"] = c14
+
+
 def setup():
     """Warm the Go build cache: build the harness (plain and -race) and the daemon once."""
     t0 = time.time()
